@@ -310,5 +310,5 @@ static std::string handle(const std::vector<std::string>& f)
 
 int main()
 {
-    return nv::main_loop(handle, 60);
+    return nv::main_loop(handle, 60, false);
 }
